@@ -186,6 +186,36 @@ def run_shard(spec):
                 k2 = known.classify("C15", fa, v, case, recs, one_case, sh, 7)
                 sh.violation(v[0], v[1], v[2], known_key=k2, what="%s: %s" % (v[0], v[1][:150]))
             sh.count("known_witnesses_replayed")
+    if spec.get("witness"):
+        # values that need no encoder / decoder call of their own, at every nesting the codec knows
+        E = {"type": "record", "name": "Empty", "fields": []}
+        W = {"type": "record", "name": "Wrap", "fields": [{"name": "a", "type": E}, {"name": "b", "type": "Empty"}]}
+        WW = {"type": "record", "name": "Wrap2", "fields": [{"name": "w", "type": W}]}
+        shapes = [(E, {}), (W, {"a": {}, "b": {}}), (WW, {"w": {"a": {}, "b": {}}})]
+        for inner, val in shapes:
+            for outer, mk in (("map", lambda v: {"k": v, "": v}), ("array", lambda v: [v, v]), ("mapmap", lambda v: {"x": {"k": v}, "y": {}}),
+                              ("arraymap", lambda v: [{"k": v}, {}]), ("maparray", lambda v: {"k": [v, v], "j": []}), ("union", lambda v: v),
+                              ("rec_last", lambda v: {"n": 1, "z": v}), ("rec_first", lambda v: {"z": v, "n": 1}), ("maprec", lambda v: {"k": {"n": 1, "z": v}})):
+                t = copy.deepcopy(inner)
+                js = {"map": {"type": "map", "values": t}, "array": {"type": "array", "items": t},
+                      "mapmap": {"type": "map", "values": {"type": "map", "values": t}},
+                      "arraymap": {"type": "array", "items": {"type": "map", "values": t}},
+                      "maparray": {"type": "map", "values": {"type": "array", "items": t}},
+                      "union": ["null", t],
+                      "rec_last": {"type": "record", "name": "Top", "fields": [{"name": "n", "type": "int"}, {"name": "z", "type": t}]},
+                      "rec_first": {"type": "record", "name": "Top", "fields": [{"name": "z", "type": t}, {"name": "n", "type": "int"}]},
+                      "maprec": {"type": "map", "values": {"type": "record", "name": "Top", "fields": [{"name": "n", "type": "int"}, {"name": "z", "type": t}]}}}[outer]
+                try:
+                    node, env = RS.build(js)
+                except Exception:
+                    continue
+                recs = [mk(val), mk(val)] + ([None] if outer == "union" else [])
+                case = {"schema": js, "node": node, "features": set()}
+                v = sh.run_case(one_case, sh, fa, random.Random(3), case, recs)
+                if v:
+                    k2 = sh.run_case(known.classify, "C15", fa, v, case, recs, one_case, sh, 3)
+                    sh.violation(v[0], v[1], v[2], known_key=k2, what="%s: %s" % (v[0], v[1][:150]))
+                sh.count("no_call_value_shapes")
     i = 0
     while i < spec["n"] and not sh.out_of_time():
         i += 1
